@@ -234,6 +234,47 @@ def _count_with_step(fi, it):
     return k is not None and k != 0
 
 
+def _bar_in_flat(ctx, pms_raw):
+    """The bar call judged on the fully flattened plotting loop (per-operation
+    helper and geometry helpers inlined): {'row': bool, 'span': bool} or None.
+    Used when the work is split differently between the loop function and the
+    per-operation helper than the call-site rules expect."""
+    F = ctx.norm.flat(pms_raw, depth=4)
+    bars = [n for n in own_nodes(F.node) if isinstance(n, ast.Call) and isinstance(n.func, ast.Attribute) and n.func.attr == "broken_barh"]
+    if len(bars) != 1:
+        return None
+    b = bars[0]
+    loops = []
+    cur = F.module.parents.get(b)
+    while cur is not None and cur is not F.node:
+        if isinstance(cur, ast.For):
+            loops.append(cur)
+        cur = F.module.parents.get(cur)
+    if len(loops) != 2:
+        return None
+    inner, outer = loops
+    mi = yvar = None
+    it = ctx.norm.xexpr(F, outer.iter)
+    if isinstance(outer.target, ast.Tuple) and len(outer.target.elts) == 2 and all(isinstance(e, ast.Name) for e in outer.target.elts):
+        if isinstance(it, ast.Call) and isinstance(it.func, ast.Name) and it.func.id == "enumerate":
+            mi = outer.target.elts[0].id
+        elif _count_with_step(F, it):
+            yvar = outer.target.elts[1].id
+    if not isinstance(inner.target, ast.Name):
+        return None
+    sv = inner.target.id
+    out = {"row": False, "span": False}
+    yarg = ctx.norm.xexpr(F, b.args[1]) if len(b.args) > 1 else None
+    if isinstance(yarg, ast.Tuple) and yarg.elts:
+        y0 = yarg.elts[0]
+        out["row"] = (yvar is not None and ast.unparse(y0) == yvar) or (mi is not None and _affine_in(F, y0, mi))
+    xr = ctx.norm.xexpr(F, b.args[0]) if b.args else None
+    if isinstance(xr, ast.List) and len(xr.elts) == 1 and isinstance(xr.elts[0], ast.Tuple) and len(xr.elts[0].elts) == 2:
+        s0, d0 = (ast.unparse(e).replace(" ", "") for e in xr.elts[0].elts)
+        out["span"] = s0 == f"{sv}.start_time" and d0 in (f"{sv}.end_time-{sv}.start_time", f"{sv}.operation.duration")
+    return out
+
+
 def _legend_labels(ctx):
     """R20.b (labels): the label of a legend entry is looked up with the job
     id whose colour the entry carries, never with a position in some
@@ -478,6 +519,8 @@ def run(ctx):
                 defs = ctx.flow.defs(pms)
                 yt = ctx.norm.xtext(pms, c.args[2]).replace(" ", "")
                 row_ok = (yvar is not None and yt == yvar) or (mi is not None and _affine_in(pms, ctx.norm.xexpr(pms, c.args[2]), mi))
+                if not row_ok and (_bar_in_flat(ctx, pms_raw) or {}).get("row"):
+                    row_ok = True  # the row is computed from the machine index inside the per-operation helper
                 if not row_ok:
                     ok = False
                     chk.violation("R20.b", pms, c, f"the bar's row `{yt}` is not derived from the machine index", loc=pms.loc(c))
@@ -555,11 +598,13 @@ def run(ctx):
             if fc != pso.params[3]:
                 ok = False
                 chk.violation("R20.b", pso, b, "the bar is not filled with the colour passed for its job", loc=pso.loc(b))
+        elif (_bar_in_flat(ctx, pms_raw) or {}).get("span"):
+            pass  # (start, end - start) of the loop's operation, assembled by a geometry helper
         else:
             ok = False
             chk.violation("R20.b", pso, b, "the bar does not span exactly (start_time, end_time - start_time) of its operation as a single range", loc=pso.loc(b))
         yarg = b.args[1] if len(b.args) > 1 else None
-        if not (isinstance(yarg, ast.Tuple) and ast.unparse(yarg.elts[0]) == pso.params[2]):
+        if not (isinstance(yarg, ast.Tuple) and ast.unparse(yarg.elts[0]) == pso.params[2]) and not (_bar_in_flat(ctx, pms_raw) or {}).get("row"):
             ok = False
             chk.violation("R20.b", pso, b, "the bar is not drawn in the row passed for its machine", loc=pso.loc(b))
     if ok:
